@@ -69,22 +69,24 @@ def run_case(case, pname, variant, occ=0):
         except Exception as e:
             problems.append('isunique raised %r' % (e,))
     if case['key'] == 'k':
-        try:
-            got = [list(prof.absrow(r)) for r in rows_of(etl.conflicts(t, 'k', **kw))]
-            allowed = [tuple(r) for r in case['callowed']]
-            pool = list(allowed)
-            ok = True
-            for r in got:
-                if tuple(r) in pool:
-                    pool.remove(tuple(r))
-                else:
-                    ok = False
-            if not ok:
-                problems.append('conflicts delivered %r, not within the rows of disagreeing duplicate groups %r' % (got, allowed))
-            elif got != case['cscan']:
-                drifts.append('conflicts delivered %r, model scan %r' % (got, case['cscan']))
-        except Exception as e:
-            problems.append('conflicts raised %r' % (e,))
+        # missing=None (default) and missing=<the value abstract 1> (an equal but possibly distinct representative)
+        for label, mkw, fa, fs in (('conflicts', {}, 'callowed', 'cscan'),
+                                   ('conflicts(missing=1)', {'missing': prof.conc(1, occ + 7)}, 'callowed1', 'cscan1')):
+            try:
+                got = [list(prof.absrow(r)) for r in rows_of(etl.conflicts(t, 'k', **mkw, **kw))]
+                pool = [tuple(r) for r in case[fa]]
+                ok = True
+                for r in got:
+                    if tuple(r) in pool:
+                        pool.remove(tuple(r))
+                    else:
+                        ok = False
+                if not ok:
+                    problems.append('%s delivered %r, not within the rows of disagreeing duplicate groups %r' % (label, got, case[fa]))
+                elif got != case[fs]:
+                    drifts.append('%s delivered %r, model scan %r' % (label, got, case[fs]))
+            except Exception as e:
+                problems.append('%s raised %r' % (label, e))
     return problems, drifts
 
 
